@@ -83,7 +83,7 @@ func modeCrash(r *common.Run, fl flavour) {
 		"CompactEntriesTo, SaveBootstrapInfo, sometimes close+reopen) is replayed and at its k-th mutating file-system operation the strict in-memory FS stops honouring syncs; " +
 		"after the call in flight returns the store is closed, unsynced state dropped, the store reopened and compared with the model; " +
 		"non-trivial = the power loss hit inside an API call with at least one earlier acknowledged call; distinct by (workload hash, k)")
-	r.Assume("power loss = everything not yet fsynced (file data) / dir-synced (directory entries) is lost (lni/vfs StrictMem); every crash point is run a second time with torn tails: " +
+	r.Assume("power loss = everything not yet fsynced (file data) / dir-synced (directory entries) is lost (lni/vfs StrictMem); every crash point is run a second time with torn tails (diagnostic only, beyond the fault model of C10, never a violation): " +
 		"of the data appended to a file since its last sync each 512-byte sector independently reaches the disk or reads as zeros; synced data is never damaged")
 	r.Assume("Pebble's background flushes/compactions make the numbering of file-system operations slightly schedule dependent: the site actually hit is recorded")
 	if *flagDbg != "" {
@@ -133,11 +133,13 @@ func modeCrash(r *common.Run, fl flavour) {
 			r.Count("power_loss_with_torn_unsynced_tail", 1)
 			r.Count("torn_files", int64(res.TornFiles))
 		}
-		if res.VioKey != "" {
+		if res.VioKey != "" && c.torn {
+			// C10 quantifies over crashes in which all unsynced data is dropped; a
+			// torn unsynced tail is a stronger disk model than the property states,
+			// what it finds is recorded as a diagnostic, never as a violation
+			r.Count("diagnostic_beyond_the_property_fault_model:torn-tail:"+res.VioKey, 1)
+		} else if res.VioKey != "" {
 			how := "all unsynced data dropped"
-			if c.torn {
-				how = "unsynced tails torn at 512-byte sectors"
-			}
 			r.Violation(res.VioKey, fmt.Sprintf("power loss (%s) at FS op %d (%s %s) during %s of workload %d: %s", how, c.k, res.HitKind, res.HitClass,
 				res.HitAPI, c.w.No, res.VioWhat), faultWitness(fl, c, "crash", res))
 		}
